@@ -94,6 +94,23 @@ func (w *World) CraftFork(base, prefix string, n, badAt int, kind string) ([]typ
 	cm := w.ManagerAt(base) // oracle for the valid prefix
 	var out []types.Block
 	bogusChain := false
+	if kind == "bogusbase" {
+		// instant-sync attack on the FIRST request: the checkpoint for the (honest) base block is
+		// served with a bogus parent state, and every block of the fork is valid relative to the
+		// state derived from it.  Only the commitment binding of Peer.SendCheckpoint stands
+		// between this fork and AddValidatedV2Blocks.
+		bb := w.Block(base)
+		pcs, ok := w.StateOf(bb.ParentID)
+		if !ok || bb.V2 == nil {
+			return nil, fmt.Errorf("CraftFork: bogusbase needs a v2 base block")
+		}
+		bogus := pcs
+		bogus.SiafundTaxRevenue = bogus.SiafundTaxRevenue.Add(types.Siacoins(654321))
+		w.setCheckpointState(bb.ID(), bogus)
+		cs, _ = consensus.ApplyBlock(bogus, bb, consensus.V1BlockSupplement{}, time.Time{})
+		bogusChain = true
+		badAt = -2
+	}
 	for i := 0; i < n; i++ {
 		k := ""
 		if i == badAt {
@@ -130,7 +147,9 @@ func (w *World) CraftFork(base, prefix string, n, badAt int, kind string) ([]typ
 		}
 		if bogusChain {
 			// valid relative to the bogus-derived state (what the victim computes from the checkpoint)
-			w.Classify(name, b)
+			if class := w.Classify(name, b); class == "ok" {
+				return nil, fmt.Errorf("CraftFork: block built on a bogus state classified ok")
+			}
 			cs, _ = consensus.ApplyBlock(cs, b, consensus.V1BlockSupplement{}, time.Time{})
 			out = append(out, b)
 			continue
